@@ -28,13 +28,13 @@ EVIDENCE = os.environ.get("VERIF_EVIDENCE_DIR", os.path.join(ROOT, "evidence")) 
 DEC = ["std", "radix"]
 DEC_T = ["std", "radix", "nostd", "pow2", "compact", "radix_compact"]
 PLAN = {
-    "C01": dict(q=dict(gated=[("std", 6000), ("radix", 6000)], miri=("std", 8, 4)),
+    "C01": dict(q=dict(gated=[("std", 6000), ("radix", 6000), ("std_rel", 3000)], miri=("std", 8, 4)),
                 t=dict(gated=[(v, 40000) for v in DEC_T] + [("std_rel", 40000)], miri=("std", 48, 8))),
-    "C02": dict(q=dict(gated=[("std", 6000), ("radix", 6000)], miri=("std", 8, 4)),
+    "C02": dict(q=dict(gated=[("std", 6000), ("radix", 6000), ("compact", 3000)], miri=("std", 8, 4)),
                 t=dict(gated=[(v, 40000) for v in DEC_T], miri=("std", 48, 8))),
-    "C03": dict(q=dict(gated=[("radix", 10000), ("std", 4000)], miri=("radix", 12, 4)),
+    "C03": dict(q=dict(gated=[("radix", 10000), ("std", 4000), ("compact", 3000)], miri=("radix", 12, 4)),
                 t=dict(gated=[("radix", 60000), ("std", 30000), ("pow2", 30000), ("compact", 30000), ("radix_compact", 30000), ("radix_rel", 40000)], miri=("radix", 64, 8))),
-    "C04": dict(q=dict(gated=[("radix", 10000), ("std", 4000)], miri=("std", 12, 4)),
+    "C04": dict(q=dict(gated=[("radix", 10000), ("std", 4000), ("compact", 3000)], miri=("std", 12, 4)),
                 t=dict(gated=[("radix", 60000), ("std", 30000), ("pow2", 30000), ("compact", 30000), ("radix_compact", 30000), ("radix_rel", 40000)], miri=("std", 64, 8))),
     "C05": dict(q=dict(gated=[("radix", 8000), ("pow2", 4000)], miri=("radix", 8, 4)),
                 t=dict(gated=[("radix", 60000), ("pow2", 30000), ("radix_compact", 30000)], miri=("radix", 48, 8))),
@@ -632,7 +632,10 @@ def finish(prop, tier, base, stats, samples, miri_stats, cross_stats, t_start, n
                                "contended first use (engine M: all workers' first call has the same kind/type/radix)",
                                "uninitialised caller buffer (engine M, every other schedule: a read of a byte the library did not store is an interpreter error)",
                                "options rebuilt in place (custom-NaN parse options are a stack local: same address, different contents)",
-                               "repeated call (the same call is re-issued later in the run, possibly on another worker; answers must agree)"],
+                               "repeated call (the same call is re-issued later in the run, possibly on another worker; answers must agree)",
+                               "allocator refusal (in a third of fault-enabled runs the global allocator returns null while a worker is inside a parse call; "
+                               "the pinned parsers never allocate, so this is only visible — as a process abort — if one starts to)",
+                               "options reconfigured in place through the deprecated setters (every other custom-NaN parse)"],
         fault_kinds_not_applicable=["message loss/duplication/reordering, partitions, clock skew, disk errors, torn writes: the library has no "
                                     "network, clock or storage", "allocation failure: aborts the process (handle_alloc_error), nothing to observe"],
         thread_switches=stats["thread_switches"],
